@@ -63,6 +63,9 @@ func MethodID(f *types.Func) string {
 	return id
 }
 
+// RawMethodID is MethodID as spelled in the current tree.
+func RawMethodID(f *types.Func) string { return rawMethodID(f) }
+
 func rawMethodID(f *types.Func) string {
 	if f == nil {
 		return ""
